@@ -70,9 +70,9 @@ Transportation1dSorter::Solution Transportation1dSorter::convertSolutionBack(
 }
 
 std::vector<int> Transportation1dSorter::convertAssignmentBack(
-    const std::vector<int> &a) const {
-  std::vector<int> ret;
-  ret.resize(a.size());
+    const std::vector<int> &a, int nbSources) const {
+  // Sources without supply are not part of the sorted problem
+  std::vector<int> ret(nbSources, -1);
   for (size_t i = 0; i < a.size(); ++i) {
     ret[srcOrder[i]] = snkOrder[a[i]];
   }
@@ -109,7 +109,22 @@ std::vector<int> Transportation1d::assign() {
   Transportation1dSolver solver = sorter.convert(*this);
   solver.run();
   std::vector<int> sol = solver.computeAssignment();
-  return sorter.convertAssignmentBack(sol);
+  std::vector<int> ret = sorter.convertAssignmentBack(sol, nbSources());
+  // Sources without supply go to the closest sink that has some demand
+  for (int i = 0; i < nbSources(); ++i) {
+    if (ret[i] >= 0) {
+      continue;
+    }
+    ret[i] = 0;
+    long long bestCost = std::numeric_limits<long long>::max();
+    for (int j = 0; j < nbSinks(); ++j) {
+      if (d[j] > 0LL && cost(i, j) < bestCost) {
+        bestCost = cost(i, j);
+        ret[i] = j;
+      }
+    }
+  }
+  return ret;
 }
 
 void Transportation1d::balanceDemand() {
